@@ -18,7 +18,7 @@ from ..model import packfmt
 
 PROPERTY = "C09"
 LEVEL = "fault_enumeration"
-NEEDS_RUST = False
+NEEDS_RUST = True
 RULE = (
     "scenario = (object layout in {loose, packed, mixed}, ref layout in {loose, packed, mixed}, operation) for every "
     "repository-changing operation (add_object, add_objects, commit, set_if_equals, remove_if_equals, set_symbolic_ref, "
